@@ -43,6 +43,24 @@ def rand_json(rng, depth=0):
             for _ in range(rng.randint(0, 3))}
 
 
+class RawStream(io.RawIOBase):
+    """file-like object of unknown size (a pipe, a zip member): readable,
+    not seekable, no fileno"""
+    def __init__(self, data):
+        self._b = io.BytesIO(data)
+
+    def readable(self):
+        return True
+
+    def seekable(self):
+        return False
+
+    def readinto(self, buf):
+        data = self._b.read(len(buf))
+        buf[:len(data)] = data
+        return len(data)
+
+
 def run(ctx):
     from poorwsgi import response as R
     from poorwsgi.headers import Headers
@@ -56,12 +74,26 @@ def run(ctx):
     app.set_route("/r", lambda req: cur["v"](), 511)
     asked = {"n": 0}
 
+    @app.after_response()
+    def peek(req, res):
+        # a hook that looks at the finished body (ETag / validator hooks
+        # do); .data leaves the response as it was
+        if asked["n"] % 3 == 0 and hasattr(res, "data") and \
+                cur.get("peekable", True):
+            len(res.data)
+        return res
+
     def ask():
         # the property does not depend on the request method: the body a
         # handler returns is what the framework hands to the server
         asked["n"] += 1
         method = ("GET", "HEAD", "POST", "GET", "PUT")[asked["n"] % 5]
-        return call(app, environ(method=method, path="/r"))
+        extra = {}
+        if asked["n"] % 2:
+            # a server that offers a file wrapper (wsgiref's)
+            from wsgiref.util import FileWrapper
+            extra["wsgi.file_wrapper"] = FileWrapper
+        return call(app, environ(method=method, path="/r", extra=extra))
 
     def bad(key, detail, ans):
         ctx.violation(key, dict(detail, status=ans.status,
@@ -174,6 +206,9 @@ def run(ctx):
             return R.TextResponse("text", headers=h)
         if name == "FileObjResponse":
             return R.FileObjResponse(io.BytesIO(b"fobj"), headers=h)
+        if name == "FileObjResponse(stream)":
+            # a stream of unknown size: no seek, no fileno
+            return R.FileObjResponse(RawStream(b"stream-data"), headers=h)
         if name == "FileResponse":
             return R.FileResponse(path, headers=h)
         if name == "GeneratorResponse":
@@ -191,7 +226,16 @@ def run(ctx):
         res = R.PartialResponse("partial", headers=h)
         res.make_range([(0, 3)], "bytes", 7)
         return res
+    BODIES = {"Response": b"data", "TextResponse": b"text",
+              "FileObjResponse": b"fobj",
+              "FileObjResponse(stream)": b"stream-data",
+              "FileResponse": b"file-content", "GeneratorResponse": b"g1g2",
+              "StrGeneratorResponse": b"s1s2", "NoContentResponse": b"",
+              "NotModifiedResponse": b"",
+              # the deprecated class sends the data it was given
+              "PartialResponse": b"partial"}
     classes = ["Response", "JSONResponse", "TextResponse", "FileObjResponse",
+               "FileObjResponse(stream)",
                "FileResponse", "GeneratorResponse", "StrGeneratorResponse",
                "JSONGeneratorResponse", "NoContentResponse",
                "NotModifiedResponse", "RedirectResponse", "PartialResponse"]
@@ -215,7 +259,9 @@ def run(ctx):
                     holder["before"] = list(res.headers.items())
                     return res
                 cur["v"] = make
+                cur["peekable"] = name != "FileObjResponse(stream)"
                 ans = ask()
+                cur["peekable"] = True
                 det = {"class": name, "headers": hdrs,
                        "given_as_Headers_object": as_obj}
                 ctx.case(("class", name, repr(hdrs), as_obj), True, det)
@@ -223,6 +269,9 @@ def run(ctx):
                 if ans.raised is not None or len(ans.calls) != 1:
                     bad("class-emission-failed", det, ans)
                     continue
+                if name in BODIES and ans.body != BODIES[name]:
+                    bad("class-body-not-delivered", dict(
+                        det, expected=BODIES[name].decode()), ans)
                 emitted = [tuple(h) for h in ans.headers]
                 want = [tuple(h) for h in holder["before"]]
                 # the texts the handler supplied, transcoded once
